@@ -16,10 +16,13 @@ TIE = ('tie to the code = (i) Gen/*.lean re-extracted from the build of the curr
        'translator and drivers, g++/libstdc++ semantics of mirrored operations')
 
 prop('C01', 'proof',
-     'Lean theorems about the move-generator model (Props/C01.lean; full statement C01_Statement kept visible, proved part named _partial) '
-     'plus a three-way differential (C++ / model mirroring movegen.cpp / naive FIDE-rules spec) on the sorted legal move set and perft through do/undo; '
+     'Lean theorems about the move-generator model (Props/C01.lean). PROVED EXACT for every Spec.wf position: the king moves (C01_king_moves_exact: the generator emits k->t iff that king step is legal '
+     'under the rules; forbidden squares = attacked with the king x-rayed, C01_forbidden_squares), the in-check test (C01_in_check_test), and CASTLING (C01_castling_exact: each of the four castling tests '
+     'holds iff the rules list that castling move, every listed castling move survives the legality filter, and the code is emitted, C01_castling_emitted; rests on "lifting an unattacked king uncovers nothing", '
+     'Lemmas/KingLift.lean, and a changed-squares lemma for Spec.attacked, Lemmas/CastleSafe.lean). The full statement genMoves = legalMoves for the other pieces (pins, check evasions, pawn sets, en passant) '
+     'is kept visible as C01_Statement and decided by the three-way differential (C++ / model mirroring movegen.cpp / naive FIDE-rules spec) on the sorted legal move set and perft through do/undo; '
      'a broken proof or correspondence triggers a spec-vs-implementation hunt for a concrete position',
-     WF + TIE, 'Lean 4 theorems over an executable model + spec-generated differential correspondence', '§6 C01')
+     WF + TIE, 'Lean 4 theorems over an executable model (king moves and castling exact; other pieces partial) + spec-generated differential correspondence', '§12.4 C01')
 prop('C02', 'proof',
      'REFINEMENT PROVED in Lean (Props/C02.lean: C02_full, C02_replay_legal): for every model position whose six FEN fields satisfy Spec.wf and EVERY move legal under the rules '
      '(Spec.legalMoves), for every Zobrist table, absPos(do_move(code of m)) = Spec.apply m on all six FEN fields, and the same for legal sequences of any length; the move-shape hypothesis is '
@@ -53,9 +56,13 @@ prop('C16', 'proof',
      'differential on uci text, codes, parse round trips and FEN->Position->FEN/keys on every visited position',
      'FEN full-move number >= 1; ' + TIE, 'Lean 4 theorems (finite decide + lemmas) + differential correspondence', '§6 C16')
 prop('C17', 'proof',
-     'Lean model of san/parse_san incl. a backtracking matcher for the one SAN regex; theorems on the matcher and disambiguation; differential on '
-     'SAN text and parse_san(san(m)) = m for every legal move', 'std::regex ECMAScript semantics of the one pattern; ' + TIE,
-     'Lean 4 theorems + differential correspondence', '§6 C17')
+     'ROUND TRIP PROVED in Lean (Props/C17.lean, C17_roundtrip): for every position whose generated move list has the decidable shape genShapeB (no duplicates, castling moves are the two castling codes, '
+     'other moves move an existing piece and promote to N/B/R/Q exactly when a pawn reaches an end rank — evaluated at every position of every run through the sync field, and a consequence of C01) and EVERY generated move, '
+     'parse_san(san(m)) = m: the text of san as a character list, the one SAN regex on every text shape san can print (exhaustive kernel evaluation, Lemmas/SanShapes*.lean, incl. pawn texts with a rank), '
+     'and the disambiguation argument (the printed file / file+rank leaves exactly one candidate whatever other moves share piece kind and target); castling texts with + and #. '
+     'Tie: differential on SAN text and parse_san(san(m)) = m for every legal move, disambiguation lab with 3-4 like pieces',
+     'std::regex ECMAScript semantics of the one pattern; ' + TIE,
+     'Lean 4 proof of the round trip over the model + differential correspondence', '§12.4 C17')
 prop('C18', 'proof',
      'PROVED in Lean (Props/C18.lean): the tables the build uses equal the committed Random64 re-ordered (decide +kernel), and C18_key: the engine\'s book key equals the published definition '
      'for every position incl. the en-passant clause (bit-level adjacency test = coordinate definition). Tie: differential on PolyglotBook::hash after every op, and sessions over the real '
@@ -122,13 +129,18 @@ prop('C12', 'proof',
 prop('C13', 'proof',
      'the evaluator (score.cpp + endgame.cpp, ~600 lines) transcribed into Lean with its explicit per-colour choices; mirror-law theorems in Props/C13.lean (see DESIGN §6 C13 for the part proved); '
      'correspondence: model vs C++ on every evaluation of corpus/lab/game positions and random placements of every specialised endgame class, and the symmetry property evaluated directly on the C++ '
-     'for every position and its mirror', 'Spec.wf positions with sufficient material; evaluation constants are hand-copied into the model (a change shows up as a disagreement); ' + TIE,
+     'for every position and its mirror', 'Spec.wf positions with sufficient material; evaluation constants of value.h and the endgame.cpp tables are regenerated from the build on every run (Gen/EvalConsts.lean); ' + TIE,
      'Lean 4 theorems over a transcribed evaluator + direct mirror test on the implementation', '§6 C13')
 prop('C14', 'proof',
-     'C14_cache_transparent proved in Lean for every sequence of evaluate/clear operations on the modelled pawn-key HashMap (slot = key mod 2^18, probe/insert/clear as in hashmap.h), generic in the pawn '
-     'scoring function, under pawn-key injectivity; the bound |eval| < VALUE_MATE - MAX_DEPTH is explored. Correspondence: warm (session) vs fresh evaluators on the C++ itself in random interleavings with '
-     'clears, pawnless positions after a clear, structures searched to collide in chosen cache slots, sibling positions, extreme material; model vs C++ on every value',
-     'no 64-bit pawn-key collision within a session; ' + TIE, 'Lean 4 invariant proof over the cache model + warm-vs-fresh differential on the implementation', '§6 C14')
+     'BOTH HALVES PROVED in Lean (Props/C14.lean). C14_cache_transparent: for every sequence of evaluate/clear operations on the modelled pawn-key HashMap (slot = key mod 2^18, probe/insert/clear as in hashmap.h) '
+     'the evaluator returns the pure value, under pawn-key injectivity. C14_bounded: for EVERY Spec.wf position (up to 8 pawns, 10 knights/bishops/rooks, 9 queens per side) the evaluation is not VALUE_NONE and '
+     '|eval| < VALUE_MATE - MAX_DEPTH — every term of score.cpp is a value.h constant times a population count (<= 64), a king distance (<= 8) or a bounded table entry, summed over the piece counts and tapered; '
+     'each of the 17 specialised endgames incl. the min(v, VALUE_MATE-1) clamps. The evaluation constants are REGENERATED from the build on every run (Gen/EvalConsts.lean: value.h objects via the harness dump, '
+     'endgame.cpp tables from the source text), so a retuned constant moves the model with the code and the numeric side condition C14_constants is re-evaluated by the kernel. '
+     'Correspondence: warm (session) vs fresh evaluators on the C++ itself in random interleavings with clears, pawnless positions after a clear, structures searched to collide in chosen cache slots, '
+     'sibling positions, extreme material; model vs C++ on every value',
+     'no 64-bit pawn-key collision within a session; inline literals of score.cpp (e.g. 10 * popcount(support)) are hand-copied into the model and covered by the correspondence; ' + TIE,
+     'Lean 4 proofs over the evaluator model (cache invariant + interval bounds) + warm-vs-fresh differential on the implementation', '§12.4 C14')
 
 PENDING = {
     'C05': 'search trace acceptor not built yet (in progress, DESIGN §6 C05)',
